@@ -76,7 +76,7 @@ def _dec2x(x, places=None, base=16):
         x = _xfunc[base](int(x))[2:].upper()
         if places is not None:
             places = int(places)
-            if places >= len(x):
+            if 10 >= places >= len(x):  # Excel accepts at most 10 places.
                 return x.zfill(int(places))
         else:
             return x
